@@ -449,7 +449,7 @@ def qval(v):
     return f"(QN {qlit(v)})"
 
 
-def coq_case(name, f, comp, T, mp, log, x, expected):
+def coq_case(name, f, comp, T, mp, log, x, expected, flags="false false"):
     """expected: Fraction or None (None = raises / not a number)."""
     ctx = ufl2coq.Ctx()
     ser = ufl2coq.Ser(ctx, prefix=f"{name}_n", share=True)
@@ -474,7 +474,7 @@ def coq_case(name, f, comp, T, mp, log, x, expected):
     txt.append(f"Definition {name}_m : list (nat * nat * qentry) := [{'; '.join(entries)}]%nat.\n")
     xs = "[" + "; ".join(qlit(v) for v in x) + "]"
     exp = "None" if expected is None else f"Some {qlit(expected)}"
-    txt.append(f"Example {name} : py_eval_Q {name}_m {xs} {name}_e {ufl2coq.natlist(comp)} = {exp}.\n"
+    txt.append(f"Example {name} : py_eval_Q {flags} {name}_m {xs} {name}_e {ufl2coq.natlist(comp)} = {exp}.\n"
                f"Proof. vm_compute. reflexivity. Qed.\n")
     txt.append(f"Example {name}_wf : wf (tsh_of [{'; '.join(shapes)}]%nat) {name}_e = true.\n"
                f"Proof. vm_compute. reflexivity. Qed.\n")
